@@ -26,6 +26,7 @@ WORK = ROOT / '.work'
 PY = str(ROOT / '.venv' / 'bin' / 'python')
 CROSSHAIR = str(ROOT / '.venv' / 'bin' / 'crosshair')
 PLUGIN = str(ROOT / 'vf' / 'plugin_crosshair.py')
+EVID = Path(os.environ.get('VERIF_EVIDENCE_DIR') or (ROOT / 'evidence'))   # redirected by tools/mutcheck.sh so mutant runs never touch real evidence
 NPROC = int(os.environ.get('VERIF_JOBS', os.cpu_count() or 4))
 
 
@@ -117,7 +118,7 @@ def _run_crosshair(path: Path, line: int, timeout: float, exclude: list[str]) ->
            '--extra_plugin', PLUGIN, '--analysis_kind', 'PEP316', f'{path}:{line}']
     t0 = time.time()
     try:
-        p = subprocess.run(cmd, capture_output=True, text=True, env=env, cwd=str(ROOT), timeout=timeout * 3 + 120)
+        p = subprocess.run(cmd, capture_output=True, text=True, env=env, cwd=str(ROOT), timeout=timeout * 6 + 300)
         out, err, rc = p.stdout, p.stderr, p.returncode
     except subprocess.TimeoutExpired as ex:
         out, err, rc = (ex.stdout or b'').decode() if isinstance(ex.stdout, bytes) else (ex.stdout or ''), 'wall timeout', 124
@@ -287,7 +288,7 @@ def run_property(prop: str, tier: str) -> int:
 
     # phase 3: triage
     ob_records = []
-    rep_dir = ROOT / 'evidence' / 'replays'
+    rep_dir = EVID / 'replays'
     for ob in obls:
         r = results[ob.id]['main']
         rec = {'id': ob.id, 'engine': 'crosshair+z3' if ob.kind == 'ch' else r.get('engine', 'smt'), 'claim': ob.claim,
@@ -370,8 +371,8 @@ def run_property(prop: str, tier: str) -> int:
         'wall_s': round(time.time() - t_start, 1),
         'violations': len(violations),
     }
-    (ROOT / 'evidence').mkdir(exist_ok=True)
-    (ROOT / 'evidence' / f'{prop}.json').write_text(json.dumps(evidence, indent=1, default=str))
+    EVID.mkdir(parents=True, exist_ok=True)
+    (EVID / f'{prop}.json').write_text(json.dumps(evidence, indent=1, default=str))
 
     for ln in lines:
         print(ln)
